@@ -14,5 +14,5 @@ CONSTANTS
  Budget = 1
  RetryLimit = 5
  MaxTok = 6
- Fix <- NoFix
+ Fix <- TreeFix
  Mut = {}
